@@ -77,9 +77,14 @@ static void res_add(res_t *r, const void *p, size_t n)
 
 static size_t op_cb(void *ud, unsigned char *buf, size_t size)
 {
-    uint64_t *s = (uint64_t *)ud; size_t i;
-    for (i = 0; i < size; ++i) buf[i] = (uint8_t)splitmix64(s);
-    return size;
+    uint64_t *s = (uint64_t *)ud; size_t i, n = size;
+    /* some requests are answered short or not at all (the header allows it): whatever the library then mixes in must
+     * still be a function of the call's own inputs, not of what earlier unrelated calls left on the stack */
+    if ((*s & 3) == 1) n = size / 2;
+    if ((*s & 7) == 6) n = 0;
+    for (i = 0; i < n; ++i) buf[i] = (uint8_t)splitmix64(s);
+    (void)splitmix64(s);
+    return n;
 }
 
 /* one operation on private stack objects */
